@@ -18,7 +18,7 @@ Lemma parse_varint_fuel_suffix n : forall bs s acc v r, parse_varint_fuel n bs s
 Proof.
   induction n as [|n IH]; intros bs s acc v r H; simpl in H; [discriminate|].
   destruct bs as [|b bs]; [discriminate|]. destruct (b <? 128).
-  - inversion H; subst. exists 1%nat. reflexivity.
+  - destruct ((s =? 63) && (2 <=? b)); [discriminate|]. inversion H; subst. exists 1%nat. reflexivity.
   - apply IH in H. destruct H as (k & ->). exists (S k). reflexivity.
 Qed.
 Lemma parse_varint_ok bs v r : parse_varint bs = Some (v, r) -> bok bs -> bok r.
@@ -57,7 +57,9 @@ Proof.
   { destruct (length r <? 4)%nat; [discriminate|].
     destruct (parse_fields_fuel n (skipn 4 r)) as [fs'|] eqn:Ef; [|discriminate]. inversion H; subst.
     constructor; [apply Forall_take; exact Hr|]. eapply IH; [exact Ef|]. apply Forall_drop. exact Hr. }
-  discriminate.
+  destruct (t mod 8 =? 3); [|discriminate].
+  destruct (skip_group n group_depth_limit (t / 8) r) as [r'|] eqn:Eg; [|discriminate].
+  destruct (skip_group_suffix _ _ _ _ _ Eg) as (k & ->). eapply IH; [exact H|]. apply Forall_drop. exact Hr.
 Qed.
 Lemma parse_fields_ok bs fs : parse_fields bs = Some fs -> bok bs -> Forall raw_ok fs.
 Proof. apply parse_fields_fuel_ok. Qed.
